@@ -9,7 +9,7 @@ Steps (all in a fresh worktree under /tmp, removed afterwards):
   3. patch applied, no demo           -> crate builds, `cargo test --lib` passes, each integration test file passes
                                         alone under the port lock (baseline-flaky tests are retried once)
 """
-import os, sys, subprocess, shutil, json, argparse, tempfile
+import os, sys, subprocess, shutil, json, argparse, tempfile, re
 
 ap = argparse.ArgumentParser()
 ap.add_argument('id'); ap.add_argument('prop'); ap.add_argument('patch'); ap.add_argument('demo'); ap.add_argument('target'); ap.add_argument('filter')
@@ -68,10 +68,18 @@ try:
     if not a.skip_integration:
         for t in ['disconnect', 'ideal_transfer', 'reliable_transfer', 'timeouts']:
             extra = ' -- --test-threads=1' if t == 'timeouts' else ''
-            for attempt in range(2):
+            # BASELINE.json: timeouts::server_active_timeout is flaky and timeouts::client_handshake_timeout always fails on the
+            # untouched tree (thread start-order race); a run in which only those fail counts as passing. Other failures are
+            # retried (the loopback tests are timing-sensitive under load).
+            tolerated = {'server_active_timeout', 'client_handshake_timeout'}
+            okrun = False
+            for attempt in range(4):
                 p = sh(f"flock /tmp/uflow_ports.lock timeout 900 cargo test --offline --test {t}{extra}")
-                if p.returncode == 0: break
-            itres[t] = p.returncode == 0
+                failed = set(re.findall(r'(?m)^test (\S+) \.\.\. FAILED', p.stdout + p.stderr))
+                if p.returncode == 0 or (failed and failed <= tolerated and 'test result' in (p.stdout + p.stderr)):
+                    okrun = True; break
+                log.append(f'attempt {attempt + 1} of {t}: failed tests {sorted(failed)}')
+            itres[t] = okrun
             r4 = r4 and itres[t]
     print(f"demo on HEAD passes: {r1}; demo with patch fails: {r2}; lib tests with patch pass: {r3}; integration with patch: {itres}")
     ok = r1 and r2 and r3 and r4
